@@ -78,7 +78,7 @@ def std_dataset(rng, **kw):
         # ('A' + '_' + 'B_C' = 'A_B' + '_' + 'C'; r13-C06a / C07b / C17a: caches keyed by joined names)
         import itertools as _it
         sep_ = rng.choice(['_', '/'])
-        pool_ = [sep_.join(c_) for n_ in (1, 2, 3) for c_ in _it.product(['A', 'B', 'C'], repeat=n_)]
+        pool_ = [sep_.join(c_) for n_ in (1, 2, 3, 4) for c_ in _it.product(['A', 'B'], repeat=n_)]
         nodes_ = list(gen.paths(D.T))
         if len(nodes_) <= len(pool_):
             new_ = dict(zip(nodes_, rng.sample(pool_, len(nodes_))))
@@ -405,6 +405,14 @@ def explore_load(prop, tier, seed, oracle, tags, n_quick, emit=(), with_truth=Fa
                             orc.spoil(acc_())
                     except Exception as e:      # noqa
                         o.problems.append('lateral / vertical comparison of %s and %s raised %s' % (ga_.name, gb_.name, type(e).__name__))
+                # ... the navigation accessors hand out containers of their own: the caller editing them in place leaves the
+                # hierarchy as it is (r13-C02a / C16b: the live children list of a lowest-level HOG handed out)
+                for x_ in [y_ for t_ in h.get_list_top_level_hogs() for y_ in all_nodes(t_) if isinstance(y_, ag.HOG)][:40]:
+                    for acc_ in (x_.get_all_descendant_genes, x_.get_all_descendant_hogs, x_.get_all_descendant_genes_clustered_by_species):
+                        try:
+                            orc.spoil(acc_())
+                        except Exception:      # noqa
+                            pass
                 # ... after all of this the species tree of the analysis is still the input tree (r13-C04b / C10b / C18b: iHam
                 # pruning "a copy" of the clade), every listed genome sits on a node of it, and every declared species is
                 # returned by its name with exactly its genes (r13-C01b: a name index re-pointed at a scratch copy of the tree)
@@ -497,6 +505,30 @@ def explore_load(prop, tier, seed, oracle, tags, n_quick, emit=(), with_truth=Fa
                         ex.fail(cid + '-sf', D, ['load filtered by the cross-reference value %r holds the families %s, the families with a gene carrying it are %s' % (qv_, gotf_, sorted(map(str, wantf_)))])
                 except Exception as e:      # noqa
                     ex.fail(cid + '-sf', D, ['filtered load with a re-used ParserFilter raised %s: %s' % (type(e).__name__, e)])
+        if prop == 'C03' and k % 6 == 2 and D.families and all(t_ is not None for _, _, t_ in D.families):
+            # a family loaded because one of its genes is named (internal id or a cross-reference) is placed exactly as in the
+            # unfiltered load -- whichever of its members is the named one (r13-C03b: members written before the query gene lost)
+            p_, l_, tid_ = ex.rng.choice(D.families)
+            mem_ = genes_of_family = gen.genes_of(l_)
+            if mem_:
+                gq_ = ex.rng.choice(mem_[len(mem_) // 2:] or mem_)       # (preferably one written late in the group)
+                try:
+                    ff_ = pyham.ParserFilter()
+                    xr_ = [v_ for _, v_ in core.declared_map(D).get(gq_, [])]
+                    if xr_ and ex.rng.random() < 0.5:
+                        ff_.add_hogs_via_GeneExtId([xr_[0]])
+                    else:
+                        ff_.add_hogs_via_GeneIntId([gq_])
+                    hf_ = core.load_py(D, filter_object=ff_)
+                    ex.res.count('families_loaded_through_a_gene_filter')
+                    of_ = ob.Obs(); ob.observe_load(hf_, of_)
+                    full_ = dict(x_.split('=', 1) for x_ in o.tags.get('forest', []))
+                    flt_ = dict(x_.split('=', 1) for x_ in of_.tags.get('forest', []))
+                    key_ = ob.osS(tid_)
+                    if key_ not in flt_ or flt_[key_] != full_.get(key_):
+                        ex.fail(cid + '-gf', D, ['family %s loaded through a filter naming its gene %s differs from the unfiltered load: %s vs %s' % (tid_, gq_, flt_.get(key_, 'absent')[:200], full_.get(key_, 'absent')[:200])])
+                except Exception as e:      # noqa
+                    ex.fail(cid + '-gf', D, ['load through a filter naming gene %s raised %s: %s' % (gq_, type(e).__name__, e)])
         if prop == 'C02' and k % 5 == 1 and D.families and all(t_ is not None for _, _, t_ in D.families):
             # "every loaded analysis": also one loaded through a ParserFilter object (family ids) that served ANOTHER file before
             # -- it holds the families a fresh filter selects, and they are well formed (r12-C02a: a filter that is not rebuilt,
